@@ -320,7 +320,7 @@ def rule_k6(ctx, F, parts=("rank", "slots", "final", "side", "init")):
         for c_, _ in hir.walk(body):
             if c_.get("k") == "Call" and (hir.callee_of(c_) or "").startswith("chess::position::Position::new") and len(c_.get("args") or []) == 2:
                 a0, a1 = sym(c_["args"][0]), sym(c_["args"][1])
-                if {a0, a1} == {("var", "row"), ("var", "col")} and (a0, a1) != (("var", "row"), ("var", "col")):
+                if {a0, a1} <= {("var", "row"), ("var", "col")} and (a0, a1) != (("var", "row"), ("var", "col")):     # (col, row), (col, col), (row, row)
                     sw.append(hir.line(c_))
         # a slot's key is folded into the hash after the slot was assigned (before it the slot still holds 0)
         early = []
@@ -346,7 +346,7 @@ def rule_k6(ctx, F, parts=("rank", "slots", "final", "side", "init")):
         ctx.check("C04.K6", "slot-key-folded-in-after-the-slot-is-assigned", not early, fn=fn["path"], file=fn["file"], line=early[0] if early else None,
                   what="the importer xors a per-square slot into the hash before the slot was given the square's key", found=early)
         ctx.check("C04.K6", "scan-squares-are-(row,col)", not sw, fn=fn["path"], file=fn["file"], line=sw[0] if sw else None,
-                  what="the importer builds a square of the scan as (col, row): pieces / empty-square keys land on the transposed square",
+                  what="the importer builds a square of the scan as (col, row) / from one coordinate twice: pieces / empty-square keys land on another square",
                   expected="Position::new(row, col)", found=sw)
         ctx.floor("C04.K6", "column advances", n_adv, 2)
         empties_hashed(ctx, F)
